@@ -586,6 +586,8 @@ class PDA:
         if self._start_stack_symbol is not None:
             graph.add_node("INITIAL_STACK_HIDDEN",
                            label=json.dumps(self._start_stack_symbol.value),
+                           initial_stack=json.dumps(
+                               self._start_stack_symbol.value),
                            shape=None,
                            height=.0,
                            width=.0)
@@ -650,8 +652,13 @@ class PDA:
             if graph.nodes[node].get("is_final", False):
                 pda.add_final_state(node)
         if "INITIAL_STACK_HIDDEN" in graph.nodes:
-            pda.set_start_stack_symbol(
-                json.loads(graph.nodes["INITIAL_STACK_HIDDEN"]["label"]))
+            hidden = graph.nodes["INITIAL_STACK_HIDDEN"]
+            if "initial_stack" in hidden:
+                pda.set_start_stack_symbol(json.loads(hidden["initial_stack"]))
+            elif "is_final" not in hidden:
+                # A graph written before the attribute existed. A node with
+                # "is_final" is a state called INITIAL_STACK_HIDDEN
+                pda.set_start_stack_symbol(json.loads(hidden["label"]))
         return pda
 
     def write_as_dot(self, filename):
